@@ -109,6 +109,25 @@ CLAIMED = {
         "exhibit is a parked relay goroutine. Hypothesis: payloads marshalable by encoding/json.",
    technique="Coq proof (LTS invariants by induction over runs + termination measure) + differential schedule replay on the real watch + monitor",
    ref="6 C20"),
+ "C10": dict(
+   text="Coq theorems (C10.v), for every API state, cache and fault oracle: the claimed list contains only cached pods that match, parse to the set's name and "
+        "are controlled by its UID or are adoptable orphans; adoption patches target unowned matching live members of a set not being deleted, release "
+        "patches (never deletes) target owned pods that stopped matching; every pod AND every ControllerRevision adoption patch is preceded in the log by a "
+        "successful live GET of the set, and CanAdopt says yes only when that GET returned the same UID without deletion timestamp (memoised); planned "
+        "deletes target claimed or just-created pods; only own-or-orphan revisions are listed. Differential run (projection: ownership calls) on "
+        "ownership-heavy populations + monitor incl. deep comparison of informer objects before/after (cache mutation).",
+   note="As C03. 'cached objects are left unmodified' is not expressible in the functional model: decided by the monitor on the implementation only.",
+   technique="Coq proof (claim/adoption phases in the program logic; log-order invariant for GET-before-adopt) + differential correspondence + monitor",
+   ref="6 C10"),
+ "C13": dict(
+   text="Coq theorems (C13.v): truncateHistory's selection consists of listed (own or orphan, distinct) revisions that are not current, not update and not "
+        "named by any claimed pod; is non-empty only when more than the limit are unused; is a prefix of the sorted unused history (oldest first), leaves "
+        "at most `limit` unused, selects each name once; and for every API state, cache and oracle the ControllerRevision deletes of the reconcile log "
+        "are, in order, a prefix of that selection. Differential run (projection: revision deletes) on revision-heavy populations (own, adopted after "
+        "upgrade with labels+marker, orphan, foreign; limits 0..3; pods pinned to old revisions) + monitor.",
+   note="As C03. 'belongs to this set' = listed by the set's selector labels or upgrade marker and orphan or controlled by its UID.",
+   technique="Coq proof (pure selection spec + phase decomposition of the reconcile log) + differential correspondence + monitor",
+   ref="6 C13"),
 }
 
 checks = []
